@@ -359,6 +359,35 @@ func c03TreeCases(rng *core.Rng, corpus *c03Corpus) c03Input {
 		in.Arg = "p"
 	case 4: // import cycles of length 1..4
 		n := rng.Range(1, 4)
+		if rng.Bool() {
+			// a cycle inside a larger graph: packages without imports, stock packages, packages that lead into the cycle
+			n = rng.Range(2, 7)
+			imports := make([][]string, n)
+			for i := 0; i < n; i++ {
+				for j := 0; j < n; j++ {
+					if i != j && rng.Chance(1, 4) {
+						imports[i] = append(imports[i], fmt.Sprintf("c%d", j))
+					}
+				}
+				if rng.Chance(1, 3) {
+					imports[i] = append(imports[i], core.Pick(rng, []string{"fmt", "strings", "math"}))
+				}
+			}
+			a, b := rng.Intn(n), rng.Intn(n)
+			imports[a] = append(imports[a], fmt.Sprintf("c%d", b))
+			imports[b] = append(imports[b], fmt.Sprintf("c%d", a)) // a == b: a package importing itself
+			for i := 0; i < n; i++ {
+				src := fmt.Sprintf("package c%d\n", i)
+				for _, im := range imports[i] {
+					src += fmt.Sprintf("import %q\n", im)
+				}
+				in.Files[fmt.Sprintf("c%d/c.go", i)] = src + "var X = 1\n"
+			}
+			in.Files["leaf/leaf.go"] = "package leaf\nvar X = 2\n"
+			in.Files["main/main.go"] = fmt.Sprintf("package main\nimport \"leaf\"\nimport \"fmt\"\nimport \"c%d\"\nfunc main() { fmt.Println(c%d.X, leaf.X) }", rng.Intn(n), 0)
+			in.Arg = "main"
+			break
+		}
 		for i := 0; i < n; i++ {
 			in.Files[fmt.Sprintf("c%d/c.go", i)] = fmt.Sprintf("package c%d\nimport \"c%d\"\nvar X = 1\n", i, (i+1)%n)
 		}
@@ -432,6 +461,9 @@ func c03MakeInput(seed int64, corpus *c03Corpus, idx int, exhaustivePrefixes []s
 	if rng.Chance(1, 400) {
 		return c03ScaleInput(rng)
 	}
+	if rng.Chance(1, 150) {
+		return c03NestInput(rng)
+	}
 	switch k := rng.Intn(20); {
 	case k < 11:
 		i := rng.Intn(len(corpus.seeds))
@@ -460,6 +492,56 @@ func c03MakeInput(seed int64, corpus *c03Corpus, idx int, exhaustivePrefixes []s
 			XRets: rng.Intn(5), NArgs: rng.Intn(5)}
 		return in
 	}
+}
+
+// c03NestInput: one identifier declared again and again in 2..40 nested scopes (blocks, if, for, range,
+// switch clauses, function literals), at top level or inside a function, read and assigned at every level.
+func c03NestInput(rng *core.Rng) c03Input {
+	depth := core.Pick(rng, []int{2, 3, 4, 5, 6, 8, 12, 20, 40})
+	name := core.Pick(rng, []string{"x", "n", "i", "v"})
+	var sb strings.Builder
+	inFunc := rng.Bool()
+	if inFunc {
+		fmt.Fprintf(&sb, "func f(%s int) int {\n", name)
+	} else {
+		fmt.Fprintf(&sb, "%s := 1\n", name)
+	}
+	closers := []string{}
+	for d := 0; d < depth; d++ {
+		switch rng.Intn(6) {
+		case 0:
+			fmt.Fprintf(&sb, "if %s > -1 {\n", name)
+			closers = append(closers, "}")
+		case 1:
+			fmt.Fprintf(&sb, "for q%d := 0; q%d < 1; q%d++ {\n", d, d, d)
+			closers = append(closers, "}")
+		case 2:
+			fmt.Fprintf(&sb, "for _, %s := range []int{%s} {\n", name, name)
+			closers = append(closers, "}")
+			continue
+		case 3:
+			fmt.Fprintf(&sb, "switch {\ndefault:\n")
+			closers = append(closers, "}")
+		case 4:
+			fmt.Fprintf(&sb, "if %s := %s + 1; %s > 0 {\n", name, name, name)
+			closers = append(closers, "}")
+			continue
+		default:
+			fmt.Fprintf(&sb, "func() {\n")
+			closers = append(closers, "}()")
+		}
+		fmt.Fprintf(&sb, "%s := %s + %d\n%s++\n", name, name, d, name)
+	}
+	fmt.Fprintf(&sb, "println(%s)\n", name)
+	for i := len(closers) - 1; i >= 0; i-- {
+		sb.WriteString(closers[i] + "\n")
+	}
+	if inFunc {
+		fmt.Fprintf(&sb, "return %s\n}\nf(1)\n", name)
+	} else {
+		fmt.Fprintf(&sb, "%s\n", name)
+	}
+	return c03Input{Kind: "eval", Src: sb.String(), Mutator: fmt.Sprintf("nested-redeclaration-%d", depth), Opts: rng.Intn(16)}
 }
 
 // c03ScaleInput: sources whose line count, line length or number of declared
